@@ -381,9 +381,8 @@ func (v *PacketDslVisitorImpl) VisitLengthFieldDeclaration(ctx *gen.LengthFieldD
 	typ := ctx.GetName().GetText()
 	if ctx.Type_() != nil {
 		typ = ctx.Type_().GetText()
-	}
-	if v.BinModel.MetaDataMap[name].Attr != nil {
-		// If metadata exists, use its basic type
+	} else if v.BinModel.MetaDataMap[name].Attr != nil {
+		// No written type: use the basic type of the metadata entry of that name
 		typ = v.BinModel.MetaDataMap[name].Attr.GetType()
 	}
 	return &model.Field{
@@ -409,9 +408,8 @@ func (v *PacketDslVisitorImpl) VisitCheckSumFieldDeclaration(ctx *gen.CheckSumFi
 	typ := ctx.GetName().GetText()
 	if ctx.Type_() != nil {
 		typ = ctx.Type_().GetText()
-	}
-	if v.BinModel.MetaDataMap[name].Attr != nil {
-		// If metadata exists, use its basic type
+	} else if v.BinModel.MetaDataMap[name].Attr != nil {
+		// No written type: use the basic type of the metadata entry of that name
 		typ = v.BinModel.MetaDataMap[name].Attr.GetType()
 	}
 	return &model.Field{
